@@ -10,6 +10,10 @@ Strings travel as `x` followed by hex byte pairs (`x` alone is the empty string)
 * `line RN <entry>`            → hex of `encodeLine entry RN`
 * `serve <req>`                → the effects of `serve req`
 * `fsinit`, `fsw RN <entry>`, `fsstep I C`, `fsfile`, `fsorder` → the concurrent file model
+* `preset`, `pmsg K id qlog iplog deleted` → the backend's latest message for profile `K`
+* `pserve SRC K <req>`         → the effects of `serve req` where the profile database's answer is
+  `lookupFrom SRC (message K)` (`SRC` is `b` backend or `c` cache file; the `devKind` token of `<req>` says
+  whether the database finds the device at all, its profile tokens are ignored)
 
 `<entry>` is 21 tokens: ip reqKind reqList reqRule respKind respList respRule timeMs reqId prof dev
 cc rc name elapsedMs asn qtype rcode proto dnssec.
@@ -135,6 +139,20 @@ def showEffects (e : Effects) : String :=
 structure S where
   jobs : List (Entry × Nat) := []
   fs : FS := {}
+  msgs : List (Nat × WireProf) := []
+
+def src! : String → Source
+  | "c" => .cacheFile
+  | _ => .backend
+
+/-- The tokens of a `serve` request with the profile tokens replaced by what the database holds for
+message `w` from source `src`. -/
+def provTokens (src : Source) (w : WireProf) : List String → List String
+  | port0 :: dk :: _ :: _ :: _ :: rest =>
+    let p := profFrom src w
+    port0 :: (if dk == "anon" then "anon" else if p.deleted then "deleted" else "ok") :: hexOf p.prof.id ::
+      showB p.prof.qlog :: showB p.prof.iplog :: rest
+  | l => l
 
 def jobsOf (l : List (Entry × Nat)) : Jobs := fun i => l[i]?
 
@@ -156,7 +174,17 @@ def step (s : S) : List String → S × String
     (match parseReq rest with
      | some q => (s, showEffects (serve q))
      | none => (s, "bad-op"))
-  | ["fsinit"] => ({}, "ok")
+  | ["preset"] => ({ s with msgs := [] }, "ok")
+  | ["pmsg", k, pid, qlog, iplog, deleted] =>
+    ({ s with msgs := (nat! k, ⟨str! pid, bool! qlog, bool! iplog, bool! deleted⟩) :: s.msgs }, "ok")
+  | "pserve" :: src :: k :: rest =>
+    (match s.msgs.lookup (nat! k) with
+     | none => (s, "bad-op")
+     | some w =>
+       match parseReq (provTokens (src! src) w rest) with
+       | some q => (s, showEffects (serve q))
+       | none => (s, "bad-op"))
+  | ["fsinit"] => ({ s with jobs := [], fs := {} }, "ok")
   | "fsw" :: rn :: rest =>
     (match parseEntry rest with
      | some e => ({ s with jobs := s.jobs ++ [(e, nat! rn)] }, "ok")
